@@ -667,6 +667,51 @@ example : normalize [97, 97, 58, 66, 98, 58, 48, 99] = some [65, 65, 58, 66, 66,
 example : normalize [97, 97, 98, 98, 48, 99] = some [65, 65, 58, 66, 66, 58, 48, 67] := by decide
 example : normalize [97, 97, 58, 98] = none ∧ normalize [122, 122] = none ∧ normalize [58, 58] = none := by decide
 
+/-- **the accepted set is exactly the canonical text of the 32-byte digest.**  `handle_certificate`
+compares the expected string with what `fingerprint_from_der` prints for the leaf (`format d`, `d` the
+SHA-256 digest) *as strings*.  So for every expected text `f` whatsoever — shorter, longer, other case,
+other separators, non-hex characters, odd digit count, empty — a Certificate message is accepted only if
+`f` is literally the canonical text; then `f` is its own normal form and denotes exactly the digest bytes.
+In every other case the transport fails on the spot. -/
+theorem certificate_accepted_only_for_canonical_digest (C : Crypto) (e : Ep) (body leaf f : RtcModel.Fingerprint.Bytes) (d : RtcModel.Fingerprint.Bytes)
+    (rest : List RtcModel.Fingerprint.Bytes) (hexp : e.ctx.expectedFp = some f) (hdec : C.certDecode body = some (leaf :: rest))
+    (hdig : C.digest leaf = format d) (hd : d ≠ []) :
+    (handleCertificate C e body ≠ failed e → f = format d ∧ normalize f = some f ∧ value f = d) ∧
+    (f ≠ format d → handleCertificate C e body = failed e) := by
+  have h2 : f ≠ format d → handleCertificate C e body = failed e := by
+    intro hne
+    exact certificate_mismatch_fails C e body leaf f rest hexp hdec (by rw [hdig]; exact fun h => hne h.symm)
+  refine ⟨?_, h2⟩
+  intro hacc
+  have hf : f = format d := by
+    by_cases h : f = format d
+    · exact h
+    · exact absurd (h2 h) hacc
+  subst hf
+  exact ⟨rfl, format_is_normal d hd, value_format d⟩
+
+/-- hence an expected value that does not denote exactly the digest's 32 bytes never gets past the
+Certificate message — a truncation (`AB`, 16 bytes, 31 bytes), an extension, the empty string … -/
+theorem wrong_length_fingerprint_never_accepted (C : Crypto) (e : Ep) (body leaf f : RtcModel.Fingerprint.Bytes) (d : RtcModel.Fingerprint.Bytes)
+    (rest : List RtcModel.Fingerprint.Bytes) (hexp : e.ctx.expectedFp = some f) (hdec : C.certDecode body = some (leaf :: rest))
+    (hdig : C.digest leaf = format d) (hlen : d.length = 32) (hv : (value f).length ≠ 32) :
+    handleCertificate C e body = failed e := by
+  have hd : d ≠ [] := by intro h; rw [h] at hlen; cases hlen
+  apply (certificate_accepted_only_for_canonical_digest C e body leaf f d rest hexp hdec hdig hd).2
+  intro h
+  apply hv
+  rw [h, value_format]; exact hlen
+
+/-- … and through SDP: if the expected text is what `SdpFingerprint::parse` made of an attribute value
+`s`, acceptance means `s` denotes exactly the digest. -/
+theorem sdp_fingerprint_accepted_iff_denotes_digest (C : Crypto) (e : Ep) (body leaf s f : RtcModel.Fingerprint.Bytes) (d : RtcModel.Fingerprint.Bytes)
+    (rest : List RtcModel.Fingerprint.Bytes) (hs : normalize s = some f) (hexp : e.ctx.expectedFp = some f)
+    (hdec : C.certDecode body = some (leaf :: rest)) (hdig : C.digest leaf = format d) (hd : d ≠ [])
+    (hacc : handleCertificate C e body ≠ failed e) : value s = d := by
+  have := (certificate_accepted_only_for_canonical_digest C e body leaf f d rest hexp hdec hdig hd).1 hacc
+  exact (fingerprint_compare_iff_digest s f d hs).mp this.1
+
+
 end Fingerprint
 
 end RtcModel.Theorems.C02
